@@ -116,7 +116,7 @@ def _work(units):
                                        "observed": {"chi2": x2, "df": df, "p": p}, "why": f"assignments under salts {s1!r} and {s2!r} are not independent (p={p:.3g})"})  # fmt: skip
         # ONE evaluator recompiled through all these configurations, the whole population evaluated after each
         # recompile: every assignment must equal the one a fresh evaluator of that configuration gave above
-        ev = None
+        ev, turn = None, False
         for vname, per_salt in chain:
             for salt, want in per_salt.items():
                 text = built[(vname, salt)][0]
@@ -128,7 +128,10 @@ def _work(units):
                 except Exception as e:  # noqa
                     acc.violation({"kind": "stat:recompile", "case": {"family": fam, "offset": off, "n": m}, "text": text, "observed": f"{type(e).__name__}: {e}"})
                     continue
-                got = assign(ev, vname, pop)
+                # most recently served units first, then a second pass in the original order: whatever a result
+                # cache kept from before the recompile is asked for before newer entries can push it out
+                turn = not turn
+                got = assign(ev, vname, pop[::-1])[::-1] if turn else assign(ev, vname, pop)
                 acc.add("evaluations", m)
                 if got != want:
                     d = sum(1 for a, b in zip(got, want) if a != b)
